@@ -52,6 +52,109 @@ class Unit:
         self.catch = catch
 
 
+class PrefixedEnv:
+    """Env proxy that prefixes variable names and obligation labels: lets several unit bodies run one after the other
+    in ONE process and ONE symbolic path set (call histories: state kept between calls shows up as a failed obligation
+    of a later body)."""
+    def __init__(self, env, prefix):
+        self._e, self._p = env, prefix
+        self.symbolic = env.symbolic
+
+    def __getattr__(self, k):
+        return getattr(self._e, k)
+
+    def real(self, name, *a, **kw):
+        return self._e.real(self._p + name, *a, **kw)
+
+    def pos(self, name, *a, **kw):
+        return self._e.pos(self._p + name, *a, **kw)
+
+    def array(self, name, *a, **kw):
+        return self._e.array(self._p + name, *a, **kw)
+
+    def grid(self, name, *a, **kw):
+        return self._e.grid(self._p + name, *a, **kw)
+
+    def eq(self, label, *a, **kw):
+        return self._e.eq(self._p + label, *a, **kw)
+
+    def holds(self, label, *a, **kw):
+        return self._e.holds(self._p + label, *a, **kw)
+
+    def eq_struct(self, label, *a, **kw):
+        return self._e.eq_struct(self._p + label, *a, **kw)
+
+    def same(self, label, *a, **kw):
+        return self._e.same(self._p + label, *a, **kw)
+
+    def fail(self, label, *a, **kw):
+        return self._e.fail(self._p + label, *a, **kw)
+
+
+def chain(name, units, **kw):
+    """One unit that runs the bodies of `units` in sequence in the same process (fresh, independently named inputs for
+    each; every body's obligations are kept).  Chaining a unit with itself checks that a call does not depend on an
+    earlier call with the same shapes but different values (memoisation keyed too coarsely, buffers reused)."""
+    units = list(units)
+    setups = []
+    for u in units:
+        if u.setup is not None and u.setup not in setups:
+            setups.append(u.setup)
+    if len(setups) > 1:
+        raise ValueError('chain %s: units with different setup functions' % name)
+    if any(u.replay is not None for u in units):
+        raise ValueError('chain %s: units with a custom replay' % name)
+
+    def body(env):
+        for i, u in enumerate(units):
+            u.body(PrefixedEnv(env, 'call%d.' % i))
+    exp = 1
+    for u in units:
+        exp = None if (exp is None or u.expect_paths is None) else exp * u.expect_paths
+    mp = 1
+    for u in units:
+        mp = min(mp * max(u.maxpaths, 1), 100000)
+    args = dict(params=dict(history=[u.name for u in units]), min_obligations=sum(u.min_obligations for u in units),
+                timeout_s=sum(u.timeout_s for u in units), maxpaths=mp, setup=setups[0] if setups else None,
+                query_timeout_ms=max(u.query_timeout_ms for u in units), expect_paths=exp,
+                catch=units[0].catch)
+    args.update(kw)
+    return Unit(name, body, **args)
+
+
+def chains_by_name(us, specs, prefix='hist-chain'):
+    """specs: list of lists of unit names (a single name = that unit twice).  Unknown names are an error (a renamed
+    unit must not silently drop its history check).  Names missing because the tier does not build them are skipped
+    only when given as '?name'."""
+    by = {u.name: u for u in us}
+    out = []
+    for k, spec in enumerate(specs):
+        names = [spec, spec] if isinstance(spec, str) else list(spec)
+        sel, skip = [], False
+        for n in names:
+            opt = n.startswith('?')
+            n = n[1:] if opt else n
+            if n not in by:
+                if opt:
+                    skip = True
+                    break
+                raise KeyError('history chain: no unit named %r' % n)
+            sel.append(by[n])
+        if skip:
+            continue
+        out.append(chain('%s-%d-%s' % (prefix, k, '+'.join(names if len(set(names)) > 1 else names[:1])[:120]), sel))
+    return out
+
+
+def _with_histories(prop_id, units):
+    """Append the call-history chains registered for this property (checks/histories.py)."""
+    try:
+        from checks.histories import HIST
+    except ImportError:
+        return units
+    return list(units) + chains_by_name(units, HIST.get(prop_id, []))
+
+
 class Mismatch(Exception):
     pass
 
@@ -491,7 +594,7 @@ def _worker(args):
     modname, idx, tier, seed = args
     import importlib
     mod = importlib.import_module(modname)
-    units = mod.units(tier, seed)
+    units = _with_histories(modname.split('.')[-1].upper(), mod.units(tier, seed))
     u = units[idx]
     dd = os.environ.get('VERIF_DUMP_SMT')
     if dd:
@@ -516,7 +619,7 @@ def main_check(prop, modname, argv):
     if a.replay:
         return do_replay(prop, mod, a.replay, tier, seed)
     t0 = time.time()
-    units = mod.units(tier, seed)
+    units = _with_histories(prop, mod.units(tier, seed))
     sel = [i for i, u in enumerate(units) if not a.only or a.only in u.name]
     ctx = mp.get_context('fork')
 
@@ -578,7 +681,7 @@ def main_check(prop, modname, argv):
 
 def do_replay(prop, mod, path, tier, seed):
     cex = json.load(open(path))
-    units = mod.units(cex.get('tier', tier), cex.get('seed', seed))
+    units = _with_histories(prop, mod.units(cex.get('tier', tier), cex.get('seed', seed)))
     u = [x for x in units if x.name == cex['unit']]
     if not u:
         print('replay: unit %s not found' % cex['unit'])
